@@ -115,6 +115,7 @@ type offerOpt struct {
 	keepCommit  bool // do not recompute the commitment after mutate
 	mutate      func(b *types.Block, bs *consensus.V1BlockSupplement)
 	tsOverride  *time.Time
+	rowVerdict  bool // leave an accepted block to the row's own expect() (a recorded finding is identified by its row)
 }
 
 // offer seals the transactions into a block on the scratch tip (correct
@@ -155,7 +156,7 @@ func (sc *scratch) offer(v1 []types.Transaction, v2 []types.V2Transaction, opt o
 		}
 		w.stats.Inc("probe.apply-revert-of-valid-probe")
 		// the reference ledger says which rule, if any, an accepted probe block breaks
-		if sc.ledger != nil {
+		if sc.ledger != nil && !opt.rowVerdict {
 			var exp []types.FileContractID
 			for _, fce := range bs.ExpiringFileContracts {
 				exp = append(exp, fce.ID)
